@@ -11,11 +11,18 @@
 //                      compared with `Strength::cmp` (Less/Equal expected) — the engine order being a
 //                      total preorder, this decides the whole order on five-card hands;
 //                  (2) every 6/7-card hand must compare Equal to its own best five cards;
-//                  (3) random pairs of 5/6/7-card hands, pairs across adjacent categories.
+//                  (3) random pairs of 5/6/7-card hands, pairs across adjacent categories, flush vs full
+//                      house pairs and flushes with the same top card;
+//                  every pair goes through ALL comparison APIs of Strength and Ranking (cmp, partial_cmp,
+//                  <, <=, >, >=, ==, max, min, sort, sort_unstable, Iterator::max/min).
 // failure classes:  `flush-lower-cards-ignored` (two non-straight flushes with the same top card and
 //                  different lower cards compare Equal — repaired in /repo 2bb9547), `flush-fullhouse-order-swapped`
 //                  (repaired in 8321a88), `category-order-differs-from-rules`, `tie-break-differs-from-rules`,
-//                  `best-five-not-found`, `evaluator-panics`.  All are violations.
+//                  `best-five-not-found`, `evaluator-panics`, and for the other comparison APIs
+//                  `strength-partial-cmp-differs-from-cmp|-rules`, `strength-operator-differs-from-rules`,
+//                  `strength-eq-inconsistent-with-cmp`, `strength-max-min-differs-from-rules`,
+//                  `strength-sort-differs-from-rules`, `strength-iter-max-min-differs-from-rules`,
+//                  `ranking-comparison-apis-disagree`, `ranking-category-order-differs-from-rules`.  All are violations.
 use robopoker::cards::card::Card;
 use robopoker::cards::evaluator::Evaluator;
 use robopoker::cards::hand::Hand;
@@ -163,15 +170,88 @@ impl Local {
     }
 }
 
-/// compare one pair with the engine and the rules
+/// compare one pair with the engine and the rules — through EVERY comparison API of `Strength`
+/// (`cmp`, `partial_cmp`, `<`, `<=`, `>`, `>=`, `==`, `Ord::max/min`, `sort`, `Iterator::max/min`)
+/// and of `Ranking` (via the public `Evaluator::find_ranking`); they must agree with each other and
+/// with the rules.  `cmp`/`partial_cmp`/operators can come from different impls (derived vs hand-written).
 fn check_pair(l: &mut Local, a: u64, b: u64, sa: &Strength, sb: &Strength, va: u32, vb: u32, short: bool) -> Ordering {
     let eng = sa.cmp(sb);
     let want = va.cmp(&vb);
     l.checked += 1;
+    let input = || format!("{} vs {} (bits {a} {b})", show(a), show(b));
+    let cats = || format!("({} vs {})", NAMES[cat_of_value(va, short) as usize], NAMES[cat_of_value(vb, short) as usize]);
     if eng != want {
-        l.fail(classify(va, vb, eng, short), format!("{} vs {} (bits {a} {b})", show(a), show(b)),
-            format!("{} ({} vs {})", ord_str(want), NAMES[cat_of_value(va, short) as usize], NAMES[cat_of_value(vb, short) as usize]),
+        l.fail(classify(va, vb, eng, short), input(),
+            format!("{} {}", ord_str(want), cats()),
             format!("{} ({:?} vs {:?})", ord_str(eng), sa, sb));
+    }
+    // ---- Strength: every API against the rules
+    let pc = sa.partial_cmp(sb);
+    if pc != Some(want) {
+        l.fail(if pc != Some(eng) { "strength-partial-cmp-differs-from-cmp" } else { "strength-partial-cmp-differs-from-rules" }, input(),
+            format!("partial_cmp = Some({}) {}", ord_str(want), cats()), format!("partial_cmp = {:?}, cmp = {}", pc, ord_str(eng)));
+    }
+    let ops = [("<", sa < sb, want == Ordering::Less), ("<=", sa <= sb, want != Ordering::Greater),
+               (">", sa > sb, want == Ordering::Greater), (">=", sa >= sb, want != Ordering::Less)];
+    for (name, got, exp) in ops {
+        if got != exp {
+            l.fail("strength-operator-differs-from-rules", input(), format!("a {name} b = {exp} {}", cats()),
+                format!("a {name} b = {got}, cmp = {}", ord_str(eng)));
+        }
+    }
+    let eq = sa == sb;
+    if eq != (want == Ordering::Equal) || (sa != sb) == eq {
+        l.fail(if eq != (eng == Ordering::Equal) { "strength-eq-inconsistent-with-cmp" } else { "strength-eq-differs-from-rules" }, input(),
+            format!("a == b is {} {}", want == Ordering::Equal, cats()), format!("a == b is {eq}, a != b is {}, cmp = {}", sa != sb, ord_str(eng)));
+    }
+    if want != Ordering::Equal && eng == want {
+        // with different rule values the bigger strength is known; identity of a returned copy is
+        // tested with `cmp`, which was just seen to be right on this pair
+        let (lo, hi) = if want == Ordering::Less { (*sa, *sb) } else { (*sb, *sa) };
+        let same = |x: &Strength, y: &Strength| x.cmp(y) == Ordering::Equal;
+        let mx = std::cmp::max(*sa, *sb); let mn = std::cmp::min(*sa, *sb);
+        let mx2 = std::cmp::max(*sb, *sa); let mn2 = std::cmp::min(*sb, *sa);
+        if !(same(&mx, &hi) && same(&mx2, &hi) && same(&mn, &lo) && same(&mn2, &lo)) {
+            l.fail("strength-max-min-differs-from-rules", input(), format!("max = {:?}, min = {:?} {}", hi, lo, cats()),
+                format!("max(a,b) = {:?}, max(b,a) = {:?}, min(a,b) = {:?}, min(b,a) = {:?}", mx, mx2, mn, mn2));
+        }
+        for v0 in [[*sa, *sb, *sa], [*sb, *sa, *sb]] {
+            let mut v = v0.to_vec();
+            v.sort();
+            let mut u = v0.to_vec();
+            u.sort_unstable();
+            let okv = |w: &Vec<Strength>| same(&w[0], &lo) && same(&w[2], &hi);
+            if !okv(&v) || !okv(&u) {
+                l.fail("strength-sort-differs-from-rules", input(), format!("sorted: first {:?}, last {:?} {}", lo, hi, cats()),
+                    format!("sort: {:?}; sort_unstable: {:?}", v, u));
+            }
+            let im = v0.iter().max().unwrap(); let imn = v0.iter().min().unwrap();
+            if !same(im, &hi) || !same(imn, &lo) {
+                l.fail("strength-iter-max-min-differs-from-rules", input(), format!("iter().max() = {:?}, iter().min() = {:?} {}", hi, lo, cats()),
+                    format!("iter().max() = {:?}, iter().min() = {:?}", im, imn));
+            }
+        }
+    }
+    // ---- Ranking (category + its rank fields): internal consistency of its comparison APIs, and the
+    //      category order against the rules when the categories differ
+    let (ra, rb) = (Evaluator::from(Hand::from(a)).find_ranking(), Evaluator::from(Hand::from(b)).find_ranking());
+    let rc = ra.cmp(&rb);
+    let rpc = ra.partial_cmp(&rb);
+    let rops = (ra < rb) == (rc == Ordering::Less) && (ra <= rb) == (rc != Ordering::Greater)
+        && (ra > rb) == (rc == Ordering::Greater) && (ra >= rb) == (rc != Ordering::Less) && (ra == rb) == (rc == Ordering::Equal);
+    let rmax_ok = rc == Ordering::Equal || {
+        let (lo, hi) = if rc == Ordering::Less { (ra, rb) } else { (rb, ra) };
+        std::cmp::max(ra, rb) == hi && std::cmp::max(rb, ra) == hi && std::cmp::min(ra, rb) == lo && [ra, rb].iter().max() == Some(&hi) && {
+            let mut v = vec![rb, ra, rb]; v.sort(); v[0] == lo && v[2] == hi }
+    };
+    if rpc != Some(rc) || !rops || !rmax_ok {
+        l.fail("ranking-comparison-apis-disagree", input(), format!("partial_cmp/operators/max/min/sort of Ranking agree with Ranking::cmp = {}", ord_str(rc)),
+            format!("{:?} vs {:?}: partial_cmp = {:?}, <: {}, >: {}, ==: {}, max = {:?}", ra, rb, rpc, ra < rb, ra > rb, ra == rb, std::cmp::max(ra, rb)));
+    }
+    let (ca, cb) = (position(cat_of_value(va, short), short), position(cat_of_value(vb, short), short));
+    if ca != cb && (rc != ca.cmp(&cb) || rpc != Some(ca.cmp(&cb))) {
+        l.fail("ranking-category-order-differs-from-rules", input(), format!("{} {}", ord_str(ca.cmp(&cb)), cats()),
+            format!("Ranking::cmp = {}, partial_cmp = {:?} ({:?} vs {:?})", ord_str(rc), rpc, ra, rb));
     }
     eng
 }
@@ -294,6 +374,41 @@ fn main() {
         run.evaluations += 2;
     }
     run.count_n("pairs:random-and-near-value", n_pairs as u64);
+    // ---------------- flush vs full house, and flushes with the same top card (five-card hands and sampled 6/7-card hands)
+    {
+        let range_of = |c: Cat, list: &Vec<(u32, u64)>| -> (usize, usize) {
+            let p = position(c, short);
+            (list.partition_point(|x| (x.0 >> 20) < p), list.partition_point(|x| (x.0 >> 20) <= p))
+        };
+        let mut big: Vec<(u32, u64)> = sampled.clone();
+        big.sort();
+        let n_special = if thorough { 400_000 } else { 120_000 };
+        let mut n_ff = 0u64; let mut n_same = 0u64;
+        for i in 0..n_special {
+            let list = if i % 3 == 2 { &big } else { &five };
+            let (f0, f1) = range_of(Cat::Flush, list);
+            let (h0, h1) = range_of(Cat::Full, list);
+            if f1 <= f0 || h1 <= h0 { continue; }
+            let (va, ba) = list[f0 + rng.below((f1 - f0) as u64) as usize];
+            let (vb, bb) = if i % 2 == 0 {
+                n_ff += 1;
+                list[h0 + rng.below((h1 - h0) as u64) as usize]
+            } else {
+                // another flush with the same top card (values are sorted by top card first)
+                let top = va >> 16;
+                let (t0, t1) = (list.partition_point(|x| (x.0 >> 16) < top), list.partition_point(|x| (x.0 >> 16) <= top));
+                n_same += 1;
+                list[t0 + rng.below((t1 - t0) as u64) as usize]
+            };
+            let (ba, bb, va, vb) = if i % 4 < 2 { (ba, bb, va, vb) } else { (bb, ba, vb, va) };
+            let (sa, sb) = (Strength::from(Hand::from(ba)), Strength::from(Hand::from(bb)));
+            let eng = check_pair(&mut main_local, ba, bb, &sa, &sb, va, vb, short);
+            if i % 8 == 0 { run.line(&format!("cmp {cfg} {ba} {bb}"), ord_str(eng)); cmp_lines += 1; }
+            run.evaluations += 2;
+        }
+        run.count_n("pairs:flush-vs-full-house", n_ff);
+        run.count_n("pairs:flushes-with-same-top-card", n_same);
+    }
     run.count_n("lines:cmp", cmp_lines);
     // the witness of the repaired flush tie, always replayed (these ranks exist in both decks)
     {
